@@ -29,6 +29,7 @@ type listCfg struct {
 	MaxL int    `json:"maxlen"`
 	Mtx  bool   `json:"mutex,omitempty"`
 	Pol  bool   `json:"push_policy,omitempty"`
+	Deco bool   `json:"decorated,omitempty"`
 }
 
 func (c listCfg) String() string {
@@ -38,6 +39,9 @@ func (c listCfg) String() string {
 	}
 	if c.Pol {
 		s += " push-policy"
+	}
+	if c.Deco {
+		s += " decorated"
 	}
 	return s
 }
@@ -65,6 +69,9 @@ func (c listCfg) build() *listInst {
 	}
 	if c.Pol {
 		s.SetPushPolicy(func(...any) error { return nil })
+	}
+	if c.Deco {
+		decorate(s).SetErr(errCat).SetValidityPolicy(func(...any) error { return errCat })
 	}
 	return &listInst{s: s, m: m}
 }
@@ -281,12 +288,15 @@ func c01Configs(c *Ctx) []listCfg {
 						if cp > 0 {
 							ml = cp + 1 // growth is attempted on a full stack too: the model drops the surplus
 						}
-						out = append(out, listCfg{k, fifo, cp, neg, fwd, ml, false, false})
+						out = append(out, listCfg{k, fifo, cp, neg, fwd, ml, false, false, false})
+						if neg == fwd {
+							out = append(out, listCfg{k, fifo, cp, neg, fwd, ml, neg, false, true})
+						}
 						if !neg && !fwd {
 							// the same histories through the locking paths and the push-policy path
-							out = append(out, listCfg{k, fifo, cp, neg, fwd, ml, true, false}, listCfg{k, fifo, cp, neg, fwd, ml, true, true})
+							out = append(out, listCfg{k, fifo, cp, neg, fwd, ml, true, false, false}, listCfg{k, fifo, cp, neg, fwd, ml, true, true, false})
 							if !c.Quick() {
-								out = append(out, listCfg{k, fifo, cp, neg, fwd, ml, false, true})
+								out = append(out, listCfg{k, fifo, cp, neg, fwd, ml, false, true, false})
 							}
 						}
 					}
